@@ -10,7 +10,7 @@ echo "suite with mutant: $SUITE"
 DEMO=$(ls "$D"/demo.sh 2>/dev/null)
 if [ -n "$DEMO" ]; then
   RUSTFMT="$WT/target/debug/rustfmt" bash "$DEMO" "$WT/target/debug/rustfmt" > "$D/confirm_mutant.log" 2>&1; echo "demo with mutant: exit $?"
-  RUSTFMT=/repo/target/debug/rustfmt bash "$DEMO" /repo/target/debug/rustfmt > "$D/confirm_head.log" 2>&1; echo "demo on HEAD: exit $?"
+  RUSTFMT=/verif/.cache/target-bins/debug/rustfmt bash "$DEMO" /verif/.cache/target-bins/debug/rustfmt > "$D/confirm_head.log" 2>&1; echo "demo on HEAD: exit $?"
 else
   echo "no demo.sh (unit-test demo only)"
 fi
